@@ -83,3 +83,18 @@ claim('C19',
        'qstr_is_email, qstr_is_ip4addr are not modelled. Model tied to code by differential execution, not by a C semantics.',
   technique='Rocq proof by induction over buffer-level loop models (indices in Z, out-of-buffer access = Crash) + finite byte sweeps (vm_compute) for the signed-char case maps; extracted-model and extracted-spec correspondence on bounded-exhaustive and random inputs',
   design='5.19')
+claim('C18',
+  text='Machine-checked theorems (Coq 8.16, closed under the global context) about buffer-level models of qhash.c and md5c.c, for every non-empty byte string and every content of the memory after the buffer: '
+       'qhashfnv1_32/_64 = FNV-1 (the shift-add sequence read from the source = multiplication by the FNV prime mod 2^w); qhashmurmur3_32/_128 = MurmurHash3 x86_32 / x64_128 with seed 0 for nbytes < 2^31 '
+       '(the fall-through tail switch read from the source handled for every tail length by one lemma); the 64 FF/GG/HH/II lines of md5c.c = the RFC 1321 schedule, MD5Transform = the RFC block function, '
+       'and every sequence of MD5Update calls followed by MD5Final (hence qhashmd5 for nbytes + 63 < 2^32 and the 32 KiB chunk loop of qhashmd5_file for every offset/length) = RFC 1321 MD5 of the bytes; '
+       'no model read goes beyond the nbytes input bytes and the result is independent of what follows them and of the stale MD5 context buffer. The specifications themselves are validated inside Coq by the RFC 1321 test suite, '
+       'FNV reference vectors and SMHasher\'s verification values (0xB0F57EE3, 0x6384BA69). Constants, shift lists, rotation amounts, the tail-switch layout, the MD5 step list, PADDING and the literals of MD5Update/MD5Pad '
+       'are regenerated from the sources on every run, and hand-modelled macros/statement sequences are compared with the text the model was written from, so a source edit breaks a proof or the translator. '
+       'Model and implementation are run side by side on lengths 0..600 x {random, zeros, 0xFF, embedded NULs} x 6 placements (guard pages before/after, misaligned, different surrounding bytes), random sizes to 1 MiB and file offset/length triples; '
+       'the monitor is the extracted specification plus independent Python references (hashlib.md5).',
+  note='Trusted: Coq kernel, extraction (ExtrOcamlBasic only), gen_hashconst.py, gcc, harness/h_hashfn.c, ocaml/d_hashfn.ml, checks/c18.py. Little-endian x86-64 (word loads through casted pointers and Encode/Decode=memcpy give the little-endian value; '
+       'alignment UB of the murmur loads is not expressible in the model). Hypotheses: murmur nbytes < 2^31 (int nblocks and int product), qhashmd5 nbytes + 63 < 2^32 ((unsigned int) cast and the i + 63 < inputLen test; for larger nbytes the theorem C18_md5_any_nbytes says what is computed instead), '
+       'regular unchanging file with full reads. The pinned FNV loop condition (`*dp && nbytes > 0`: stops at NUL, reads data[nbytes]) was a genuine defect and is repaired by a fix commit; the gcc (__GNUC__) branch of the FNV multiplication is the one modelled, the #else multiplier is proved equal.',
+  technique='Rocq proof: induction over blocks, generic streaming refinement (Init/Update/Final vs one-shot padding), finite computation for the step schedule, mod-2^w arithmetic by lia; constants and step list translated from source; extracted-model correspondence with guard-page harness',
+  design='5.18')
